@@ -30,11 +30,13 @@ theorem complete_iff_all {d : DG} (w : d.wf) (e : Ep) :
   rw [isComplete_abs w e]
   simp [DG.complete, List.all_eq_true]
 
-/-- `reassembled_payload`: when every piece is held, the contiguity re-check of `allocate_pdu` passes and the
-    concatenated buffer is the original payload, byte for byte. -/
-theorem reassembled_payload {d : DG} (w : d.wf) (e : Ep) (hall : ∀ q ∈ d.pieces, q ∈ e.got) :
+/-- `reassembled_payload`: when every piece is held (and the remembered first header is as long as the datagram's:
+    `EpInv`, an invariant of every reachable state), the size check and the contiguity re-check of `allocate_pdu`
+    pass and the concatenated buffer is the original payload, byte for byte. -/
+theorem reassembled_payload {d : DG} (w : d.wf) (e : Ep) (hall : ∀ q ∈ d.pieces, q ∈ e.got)
+    (hfirst : hdrSize (e.first.getD {}) = hdrSize d.hdr) :
     allocBuf (absStream d e) = some d.payload :=
-  allocBuf_abs w e (by simpa [DG.complete, List.all_eq_true] using hall)
+  allocBuf_abs w e (by simpa [DG.complete, List.all_eq_true] using hall) hfirst
 
 /-! ### the reassembler over whole capture histories -/
 
@@ -167,6 +169,7 @@ theorem no_datagram_from_holes (parse : UpperParse) (r r' : Streams) (p p' : Pkt
           · simp at h
           · rename_i inner hparse
             simp only [Prod.mk.injEq] at h
+            have hbuf := ((allocBuf_some_iff _ buf).mp hbuf).2
             have hb := (allocLoop_some_iff 0 [] _ buf).mp hbuf
             refine ⟨_, hs', hb.1, ?_⟩
             rw [← h.2.1]
